@@ -11,9 +11,10 @@ SPEC = {
     'assumptions': ['A2: string renderings of labels are injective', 'successor generation call sites are covered by the bounded suite only (orchestration functions are not yet under contract)'],
     'deductive': [
         ('K-next(prev and edge slots)', 'next', '^fields:(prev|edges)'),
-        ('K-update(edge_m and prev move together)', 'update', '^update:slot-complete\\[(edge_m|prev)\\]')],
+        ('K-update(edge_m and prev move together)', 'update', '^update:slot-complete\\[(edge_m|prev)\\]'),
+        ("_match_states(call-site precondition of next: only moves the map offers, map coordinates)", 'match_states', r'^(walk:|insert:)')],
     'bounded': [
-        ('walk-in-the-graph', suites.case_C04, 400, 8000, RULE + '; ' + 'non-trivial = best path visits at least two different states; histories of <= 4 operations', '')],
+        ('walk-in-the-graph', suites.case_C04, 1500, 25000, RULE + '; ' + 'non-trivial = best path visits at least two different states; histories of <= 4 operations', '')],
 }
 
 
